@@ -83,6 +83,9 @@ func c19rRun(t *testing.T, c c19rCase) (leaks []string, sites map[string]bool) {
 	}
 	conf.Options.SourcePasswordRaw, conf.Options.TargetPasswordRaw = c19rSrc, c19rTgt
 	conf.Options.SourceAuthType, conf.Options.TargetAuthType = "auth", "auth"
+	if c.Fault == "unknown-auth-type" {
+		conf.Options.SourceAuthType, conf.Options.TargetAuthType = "adminauth", "adminauth"
+	}
 	conf.Options.SourceAddressList, conf.Options.TargetAddressList = []string{"src:6379"}, []string{"tgt:6379"}
 	conf.Options.TargetType, conf.Options.SourceType = "standalone", "standalone"
 	conf.Options.Parallel = 2
@@ -116,13 +119,18 @@ func c19rRun(t *testing.T, c c19rCase) (leaks []string, sites map[string]bool) {
 		synctest.Test(t, func(t *testing.T) {
 			m := msource.New()
 			m.Password = c19rSrc
-			src := mredis.New(mredis.Options{Registry: reg, Password: c19rSrc})
+			var unk map[string]bool
+			if c.Fault == "unknown-auth-type" {
+				unk = map[string]bool{"adminauth": true}
+			}
+			m.Unknown = unk
+			src := mredis.New(mredis.Options{Registry: reg, Password: c19rSrc, Unknown: unk})
 			tpw := c19rTgt
 			if c.Fault == "bad-target-password" {
 				tpw = "something-else"
 			}
 			restores := 0
-			topt := mredis.Options{Registry: reg, Password: tpw}
+			topt := mredis.Options{Registry: reg, Password: tpw, Unknown: unk}
 			topt.ReplyHook = func(cmd mredis.Cmd) []byte {
 				if cmd.Name() == "restore" {
 					restores++
@@ -202,7 +210,7 @@ func TestVerif_C19R(t *testing.T) {
 	all := map[string]bool{}
 	for _, path := range []string{conf.TypeRump, conf.TypeRestore, conf.TypeDump} {
 		for _, level := range []string{"debug", "info"} {
-			for _, fault := range []string{"", "target-error", "bad-target-password"} {
+			for _, fault := range []string{"", "target-error", "bad-target-password", "unknown-auth-type"} {
 				idx++
 				if !ev.Mine(idx) {
 					continue
